@@ -18,6 +18,7 @@ EXTRA = {  # further checks worth running for a seed (beyond its own property an
     "C01c": ["C02", "C03"], "C03c": ["C01"], "C08d": ["C12", "C04"], "C11d": ["C12"], "C12e": ["C08"], "C14d": ["C13"], "C09d": ["C10"],
     "C02d": ["C05"], "C04d": ["C01"], "C05d": ["C08", "C12"], "C06d": ["C08"], "C10d": ["C09"], "C13d": ["C14"], "C11e": ["C07"],
     "C01d": ["C08", "C02"], "C07d": ["C05"], "C12f": ["C16"], "C14e": ["C13"], "C09e": ["C10"], "C08e": ["C05", "C12"],
+    "C16f": ["C13"], "C11f": ["C07"], "C13e": ["C14"], "C03d": ["C01", "C02"], "C12g": ["C08"], "C04e": ["C12", "C08"],
     "C08a": ["C14", "C12"], "C11b": ["C09"], "C06c": ["C08", "C02"], "C02c": ["C03"], "C04c": ["C01"], "C05c": ["C02"], "C13c": ["C14"], "C10c": ["C09"], "C09c": ["C10"], "C05a": ["C07"], "C07a": ["C05"], "C14a": ["C13"], "C13a": ["C14"],
 }
 
